@@ -58,6 +58,8 @@ def build_nldf(n):
     theta = list(TH[n["theta_len"]])
     if not n["a0ok"]:
         theta[0] = 0.0
+    if n.get("lastzero"):
+        theta[-1] = 0.0
     dots = [tuple(d) for d in n["dots"]]
     jparams = [list(JP[k]) for k in n["jplens"]]
     v = n["ver"]
